@@ -448,3 +448,6 @@ def check_C08(rep, fl):
     # the audited drop in ShardedMap::try_insert (the entry overwritten by shard.insert) is dead only
     # while the processor inserts exactly the entries the policy has just admitted: premise R06.2
     props_life.check_handle_item_pairing(rep, fl, collisions=False)
+    # expired values leave through on_evict: the sweeper reports every entry it takes out, with its value, and
+    # examines every key the expiry index has handed over (and forgotten)
+    props_store.check_sweeper(rep, fl)
